@@ -954,16 +954,20 @@ static void random_case(uint64_t seed, uint64_t variants)
   R.nontrivial(h);
 }
 
+// Case layout (independent of tier and of the total case count, so any case replays alone):
+// every kEnumEvery-th case is the next slot of the enumerated block (base = e / kStride,
+// slot = e % kStride with e = i / kEnumEvery); every other case is a seeded random case.
+// kEnumEvery is coprime with the shard counts so the enumerated cases spread over all shards.
+static const uint64_t kEnumEvery = 33;
+
 int main(int argc, char **argv)
 {
   auto &R = vf::report();
   R.init("C09", argc, argv);
-  uint64_t bases    = static_cast<uint64_t>(R.opt.param("enum_bases", 8));
-  uint64_t variants = static_cast<uint64_t>(R.opt.param("variants_per_case", 6));
-  uint64_t E        = bases * kStride;
+  uint64_t variants = static_cast<uint64_t>(R.opt.param("variants_per_case", 8));
   R.run_cases([&](uint64_t i) {
-    if (i < E)
-      enum_case(R.opt.seed, i / kStride, i % kStride, R.case_seed(i));
+    if (i % kEnumEvery == 0)
+      enum_case(R.opt.seed, (i / kEnumEvery) / kStride, (i / kEnumEvery) % kStride, R.case_seed(i));
     else
       random_case(R.case_seed(i), variants);
   });
